@@ -114,6 +114,14 @@ def witnesses() -> list[dict]:
                {"a.py": A, "b.py": "def f() -> int:\n    return 1\ndef broken(:\n"},
                {"a.py": A, "b.py": "def f() -> str:\n    return ''\n"}, kinds=["break-syntax", "fix-syntax+signature"])
     out.append({"name": n, "steps": s, "modes": ["normal", "skip"]})
+    # blocking error pending in b.py, then b.pyi appears (N1) / b.py becomes b/__init__.py still broken (N2)
+    BAD = "def f() -> int:\n    return 1\ndef broken(:\n"
+    n, s = raw("blocker-then-stub", {"a.py": A, "b.py": "def f() -> int:\n    return 1\n"}, {"a.py": A, "b.py": BAD},
+               {"a.py": A, "b.py": BAD, "b.pyi": "def f() -> str: ...\n"}, kinds=["break-syntax", "add-stub"])
+    out.append({"name": n, "steps": s, "modes": ["normal", "skip"]})
+    n, s = raw("blocker-then-package", {"a.py": A, "b.py": "def f() -> int:\n    return 1\n"}, {"a.py": A, "b.py": BAD},
+               {"a.py": A, "b/__init__.py": BAD}, kinds=["break-syntax", "to-package"])
+    out.append({"name": n, "steps": s, "modes": ["normal", "skip"]})
     # reprocessed method loses `self` in a signature note
     n, s = raw("self-dropped", {"d.py": "class Base:\n    def m(self, a: int) -> int:\n        return a\n",
                                 "u.py": "from d import Base\nclass Leaf(Base):\n    def m(self, a: int) -> int:\n        return a + 1\n"},
@@ -303,6 +311,15 @@ def check_outputs(ctx: Ctx, h: dict, count: bool = True) -> tuple[bool, bool]:
                        dict(replay_of(h, k, None), traceback=d.get("traceback")))
             break
         dm, fm = canon(d["out"], d["status"]), canon(f["out"], f["status"])
+        # a blocking error was pending in the daemon and the file that defines that module is now another one
+        blocker_moved = False
+        if hist_state.get("pending_blocker") and k > 0:
+            stem = hist_state["pending_blocker"]
+            cands = [stem + ".py", stem + ".pyi", stem + "/__init__.py", stem + "/__init__.pyi"]
+            before = [c for c in cands if c in h["steps"][k - 1]["files"]]
+            blocker_moved = before != [c for c in cands if c in st["files"]]
+        m = re.search(r"^([^:\n]+?)(?:/__init__)?\.pyi?:\d+: error: .*\[syntax\]$", d["out"], re.M)
+        hist_state["pending_blocker"] = m.group(1) if m else None
         if d.get("err"):
             dm["other"].append("stderr: " + d["err"].strip())
         fm["blocker"] = f.get("blocker", False)
@@ -316,6 +333,12 @@ def check_outputs(ctx: Ctx, h: dict, count: bool = True) -> tuple[bool, bool]:
                 ctx.report({"class": "module-path-change-undetected", "edit": "stub-removed-source-unchanged"},
                            f"a stub was deleted while the source file it shadowed is unchanged since the daemon last saw it: the daemon "
                            f"keeps checking against the deleted stub ({hist_state['stub_removed']}, follow-imports={h['mode']}, step {k}): {diff[:3]}",
+                           replay_of(h, k, diff))
+                break
+            if blocker_moved:
+                ctx.report({"class": "module-path-change-undetected", "edit": "blocking-error-module-moved"},
+                           f"a blocking error was pending in a module whose file then changed path (stub added / moved into a package): "
+                           f"update() re-processes the module at its old path first ({h['kind']} history, follow-imports={h['mode']}, step {k}): {diff[:3]}",
                            replay_of(h, k, diff))
                 break
             if h.get("same_second") and k in h["same_second"]:
